@@ -1487,6 +1487,9 @@ class Stage:
         else:
             ret._initial.pop(ret.t0, None)
         ret._method = deepcopy(self._method)
+        # A template that was transcribed on its own: the copy must not keep that transcription (its Opti)
+        ret._method.main_untranscribe(ret)
+        ret._method.untranscribe(ret)
         ret._method.T = None
         ret._method.t0 = None
         ret._var_original = self._var_original
